@@ -352,6 +352,7 @@ func vOrchestrate(id, tier, verifDir string, seed int64, triage bool) int {
 	sem := make(chan struct{}, par)
 	self, _ := os.Executable()
 	harnessErr := false
+	var hangs []string
 	var mu sync.Mutex
 	for _, i := range order {
 		wg.Add(1)
@@ -366,7 +367,24 @@ func vOrchestrate(id, tier, verifDir string, seed int64, triage bool) int {
 			cmd := exec.Command(self, "worker", id, tier, strconv.Itoa(i), strconv.Itoa(per))
 			cmd.Env = append(os.Environ(), "GOMAXPROCS=1")
 			cmd.Stderr = os.Stderr
+			// hard limit: a worker checks its deadline between executions; one that is
+			// still running 300 s after it is stuck INSIDE an execution of the code
+			// under test (deadlock / endless loop in sequential use)
+			hung := false
+			timer := time.AfterFunc(time.Duration(per+300)*time.Second, func() {
+				hung = true
+				if cmd.Process != nil {
+					cmd.Process.Kill()
+				}
+			})
 			out, err := cmd.Output()
+			timer.Stop()
+			if hung {
+				mu.Lock()
+				hangs = append(hangs, shards[i].Name)
+				mu.Unlock()
+				return
+			}
 			var r vResult
 			lines := strings.Split(strings.TrimSpace(string(out)), "\n")
 			if jerr := json.Unmarshal([]byte(lines[len(lines)-1]), &r); jerr != nil {
@@ -434,6 +452,12 @@ func vOrchestrate(id, tier, verifDir string, seed int64, triage bool) int {
 			bySig[s] = v
 			sigOrder = append(sigOrder, s)
 		}
+	}
+	for _, name := range hangs {
+		v := &vViolation{Property: id, Class: "operation-did-not-return", Cause: "shard " + name, Config: name, Shard: name, Count: 1,
+			Detail: "the worker exploring this shard was still inside one execution of the code under test 300 s after its deadline (deadlock or endless loop); it was killed"}
+		bySig[v.Sig()] = v
+		sigOrder = append(sigOrder, v.Sig())
 	}
 	sort.Strings(sigOrder)
 
